@@ -169,6 +169,64 @@ func port0(port string) string {
 	return port
 }
 
+
+// extremeTrees: the shapes at the edge of what a radix tree over host bytes can be -- maximal fan-out below one
+// node and at the root (every byte that can start / end a host), maximal depth (a node boundary at every byte of
+// a 253-byte host, with and without the trailing full stop) -- each with probes that present EVERY byte value at
+// the position looked up in the dense node (a bracketed Origin carries any byte) and every suffix of the deep host.
+type extremeTree struct {
+	kind   string
+	pats   []string
+	probes []string
+}
+
+func extremeTrees(tier string) []extremeTree {
+	var out []extremeTree
+	first := "abcdefghijklmnopqrstuvwxyz0123456789"
+	for _, k := range []int{16, 17, 26, 36} {
+		var pats, probes []string
+		for i := 0; i < k; i++ {
+			pats = append(pats, "https://"+first[i:i+1]+"x.example.com")
+		}
+		for b := 0; b < 256; b++ {
+			probes = append(probes, "https://["+string([]byte{byte(b)})+"x.example.com]", "https://"+string([]byte{byte(b)})+"x.example.com")
+		}
+		probes = append(probes, "https://x.example.com", "https://ax.example.com:1", "https://aax.example.com")
+		out = append(out, extremeTree{"fanout-node/" + strconv.Itoa(k), pats, probes})
+		// at the root: hosts that differ in their LAST byte
+		pats, probes = nil, nil
+		for i := 0; i < k; i++ {
+			pats = append(pats, "https://host.a"+first[i:i+1])
+		}
+		for b := 0; b < 256; b++ {
+			probes = append(probes, "https://[host.a"+string([]byte{byte(b)})+"]", "https://host.a"+string([]byte{byte(b)}))
+		}
+		out = append(out, extremeTree{"fanout-root/" + strconv.Itoa(k), pats, probes})
+	}
+	deep := longHost(253, 'a')
+	for _, dot := range []string{"", "."} {
+		var pats, probes []string
+		for k := 0; k < len(deep); k++ {
+			if deep[k] != '.' {
+				pats = append(pats, "https://"+deep[k:]+dot)
+			} else {
+				pats = append(pats, "https://b"+deep[k:]+dot) // forces a node boundary at the full stop
+			}
+			probes = append(probes, "https://"+deep[k:]+dot, "https://b"+deep[k:]+dot, "https://"+deep[k:]+dot+":1")
+		}
+		probes = append(probes, "https://a", "https://"+deep, "https://"+deep+".", "https://["+deep+"]")
+		out = append(out, extremeTree{"depth/253" + dot, pats, probes})
+		if tier == "thorough" { // the same chain built from the leaf upwards and from the middle outwards
+			rev := append([]string{}, pats...)
+			for i, j := 0, len(rev)-1; i < j; i, j = i+1, j-1 {
+				rev[i], rev[j] = rev[j], rev[i]
+			}
+			out = append(out, extremeTree{"depth-rev/253" + dot, rev, probes})
+		}
+	}
+	return out
+}
+
 func runTree(pats, probes []string) (res SL, elems []string, npat int) {
 	var t origins.Tree
 	for _, raw := range pats {
@@ -186,7 +244,14 @@ func runTree(pats, probes []string) (res SL, elems []string, npat int) {
 				out = append(out, Y("noparse"))
 				continue
 			}
-			out = append(out, Bool(t.Contains(&og)))
+			func() {
+				defer func() {
+					if e := recover(); e != nil {
+						out = append(out, Y("panic"))
+					}
+				}()
+				out = append(out, Bool(t.Contains(&og)))
+			}()
 		}
 		return out
 	}
@@ -246,6 +311,9 @@ func famTree(o *Out, r R, tier string) {
 		for _, p := range permutations(c) {
 			emit("corpus", p)
 		}
+	}
+	for _, e := range extremeTrees(tier) {
+		emitWith("extreme/"+e.kind, e.pats, e.probes)
 	}
 	// many siblings below one node (boundary counts), in sorted, reverse and random insertion order
 	nsib := 3
